@@ -6,6 +6,7 @@ import (
 	"runtime/debug"
 	"sort"
 	"strings"
+	"sync"
 	"testing"
 	"testing/synctest"
 	"time"
@@ -78,6 +79,7 @@ type lockRec struct {
 }
 
 type lockerSim struct {
+	vmu     sync.Mutex // violations may be recorded by two tasks running at the same time
 	in      *LockerIn
 	sched   *Sched
 	recs    []*lockRec
@@ -89,6 +91,8 @@ type lockerSim struct {
 }
 
 func (l *lockerSim) violate(class, detail string, feats ...string) {
+	l.vmu.Lock()
+	defer l.vmu.Unlock()
 	for _, v := range l.viols {
 		if v.Class == class {
 			return
@@ -331,13 +335,13 @@ func (l *lockerSim) doRequest(ctx context.Context, t *Task, locker *command.Defa
 	}
 	rctx, cancel := context.WithCancel(ctx)
 	rec.cancel = cancel
-	l.cur[t] = nil
+	l.setCur(t, nil)
 	l.sched.yieldTask(t, "lk.invoke", true)
 	if t.Gen.dead.Load() {
 		return
 	}
-	l.recs = append(l.recs, rec)
-	l.cur[t] = rec
+	l.addRec(rec)
+	l.setCur(t, rec)
 	rec.invoked = true
 	rec.callStep = l.sched.step
 	rec.queueStep = l.sched.step
@@ -347,7 +351,7 @@ func (l *lockerSim) doRequest(ctx context.Context, t *Task, locker *command.Defa
 			rec.holding = false
 			l.sched.Logf("  %s PANIC in the locker", rec.name)
 			l.violate("locker-panics", fmt.Sprintf("%s: the lock manager panicked: %v", rec.name, e))
-			l.cur[t] = nil
+			l.setCur(t, nil)
 		}
 	}()
 	unlock, err := locker.Lock(rctx, command.Accounts{Read: rec.read, Write: rec.write})
@@ -358,11 +362,11 @@ func (l *lockerSim) doRequest(ctx context.Context, t *Task, locker *command.Defa
 	rec.retStep = l.sched.step
 	rec.err = err
 	if rec.retStep > rec.callStep {
-		l.counter["probe.lock-queued"]++
+		l.count("probe.lock-queued")
 	}
 	if err != nil {
 		l.sched.Logf("  %s Lock -> error (cancelled=%v)", rec.name, rec.cancelled)
-		l.counter["probe.lock-error-returned"]++
+		l.count("probe.lock-error-returned")
 		if !rec.cancelled {
 			l.violate("lock-error-without-cancellation", fmt.Sprintf("%s: Lock returned an error although its context was never cancelled: %v", rec.name, err))
 		}
@@ -370,7 +374,7 @@ func (l *lockerSim) doRequest(ctx context.Context, t *Task, locker *command.Defa
 		rec.holding = true
 		l.sched.Logf("  %s Lock -> granted", rec.name)
 		if rec.cancelled {
-			l.counter["probe.granted-despite-cancel"]++
+			l.count("probe.granted-despite-cancel")
 		}
 		for i := 0; i < req.Hold; i++ {
 			l.sched.yieldTask(t, "lk.hold", true)
@@ -387,7 +391,7 @@ func (l *lockerSim) doRequest(ctx context.Context, t *Task, locker *command.Defa
 			return
 		}
 	}
-	l.cur[t] = nil
+	l.setCur(t, nil)
 	l.sched.yieldTask(t, "lk.done", true)
 }
 
@@ -679,4 +683,24 @@ func GenLockerIn(t *rapid.T) *LockerIn {
 		in.PCTSpan = rapid.SampledFrom([]int{20, 60, 150}).Draw(t, "pctSpan")
 	}
 	return in
+}
+
+// Bookkeeping done on task goroutines: two tasks may run at the same time (a broken lock manager
+// can wake two waiters that then both return without meeting a hook), so it takes the scheduler's mutex.
+func (l *lockerSim) setCur(t *Task, r *lockRec) {
+	l.sched.mu.Lock()
+	l.cur[t] = r
+	l.sched.mu.Unlock()
+}
+
+func (l *lockerSim) addRec(r *lockRec) {
+	l.sched.mu.Lock()
+	l.recs = append(l.recs, r)
+	l.sched.mu.Unlock()
+}
+
+func (l *lockerSim) count(k string) {
+	l.sched.mu.Lock()
+	l.counter[k]++
+	l.sched.mu.Unlock()
 }
